@@ -103,6 +103,20 @@ func c13Judge(out *spec.Outcome, res impl.CallResult, doc, pristine interface{})
 	return true, "", "", sets
 }
 
+var c13X impl.Func
+var c13XDoc = map[string]interface{}{"p": []interface{}{1.0, 2.0, 3.0}, "q": map[string]interface{}{"r": 4.0, "s": 5.0}}
+
+// c13Interlude performs an unrelated accessor-mode retrieval (it recycles the pooled buffers).
+func c13Interlude(env *impl.Env) {
+	if c13X == nil {
+		c13X = impl.Parse("$..*", &env.CfgAcc).F
+	}
+	if c13X != nil {
+		impl.Call(c13X, c13XDoc)
+		impl.Call(c13X, c13XDoc["q"])
+	}
+}
+
 type c13Job struct {
 	productJob
 }
@@ -115,6 +129,10 @@ func c13Oracle(j *productJob, c *run.Ctx, pc *pathCase, di, m int, out *spec.Out
 	doc := j.ds.docs[m][di]
 	j.env.ResetImpl()
 	res := impl.Call(pc.fAcc, doc)
+	// accessors must stay valid while the library is used for something else
+	if res.ErrType == "" && len(res.Values) > 0 {
+		c13Interlude(j.env)
+	}
 	c.Outcome(res.Key())
 	ok, kind, detail, sets := c13Judge(out, res, doc, j.ds.pristine[m][di])
 	c.Add("set_operations", int64(sets))
@@ -133,7 +151,9 @@ func c13Oracle(j *productJob, c *run.Ctx, pc *pathCase, di, m int, out *spec.Out
 	pa := impl.Parse(pc.r.Text, &env.CfgAcc)
 	if pa.F != nil {
 		fout := spec.Eval(pc.p, fdoc, env.Model)
-		if fok, fk, fd, _ := c13Judge(&fout, impl.Call(pa.F, fdoc), fdoc, j.ds.pristine[m][di]); fok {
+		fres := impl.Call(pa.F, fdoc)
+		c13Interlude(env)
+		if fok, fk, fd, _ := c13Judge(&fout, fres, fdoc, j.ds.pristine[m][di]); fok {
 			c.Add("history_dependence_seen", 1)
 			return
 		} else {
@@ -172,6 +192,7 @@ func init() {
 		Level: "model_checking",
 		Rule:  "every (path, document) whose result has at least one settable accessor, and within it every accessor index i; non-trivial = at least one Set was performed; each Set is followed by a structural diff against an untouched copy and a read of the model's location",
 		Assumptions: []string{
+			"between obtaining the accessors and using them an unrelated accessor-mode retrieval is performed (accessors must not be invalidated by later use of the library)",
 			"location oracle = the reference model's (container, key|index) for the i-th result; the sentinel written is unique, so a write to any other location is visible in the diff even where leaves are equal",
 		},
 		Bounds: map[string]string{
@@ -202,7 +223,9 @@ func init() {
 				}
 				pristine := gen.Clone(doc)
 				out := spec.Eval(p, doc, env.Model)
-				ok, _, detail, _ := c13Judge(&out, impl.Call(pa.F, doc), doc, pristine)
+				res := impl.Call(pa.F, doc)
+				c13Interlude(env)
+				ok, _, detail, _ := c13Judge(&out, res, doc, pristine)
 				return !ok, detail
 			})
 		},
